@@ -348,8 +348,9 @@ def parseAndWriteOutput(file: str, output_dir: str, config: Config,
                 with open(output_file, "w") as output:
                     output.writelines(json_string)
 
-                    if delete_after_parsing:
-                        os.remove(file)
+                # Only remove the original once the output file is written and closed
+                if delete_after_parsing:
+                    os.remove(file)
             else:
                 print(f"No PEL parsed for {file}")
         except Exception as e:
@@ -406,11 +407,12 @@ def deletePELFromPELId(path: str, pelID: str) -> None:
         print("PEL not found")
 
 
-def parseAndPrintPELFile(file_path: str, config: Config, exit_on_error: bool) -> None:
+def parseAndPrintPELFile(file_path: str, config: Config, exit_on_error: bool) -> bool:
     """
     Parses a PEL file and prints the JSON string representation.
-    Returns: None
+    Returns: True if the PEL was parsed and completely printed, False otherwise
     """
+    printed = False
     try:
         with open(file_path, 'rb') as fd:
             data = fd.read()
@@ -421,8 +423,11 @@ def parseAndPrintPELFile(file_path: str, config: Config, exit_on_error: bool) ->
                     print(json_string)        
                 else:
                     printPELInHexFormat(data)
+                sys.stdout.flush()
+                printed = True
     except Exception as e:
         print(f"Exception: No PEL parsed for {file_path}: {e}", file=sys.stderr)
+    return printed
 
 
 def parsePelFromID(path: str, config: Config) -> None:
@@ -870,8 +875,8 @@ def main():
         config.extension = args.extension
 
     if args.file:
-        parseAndPrintPELFile(args.file, config, True)
-        if args.clean:
+        printed = parseAndPrintPELFile(args.file, config, True)
+        if args.clean and printed:
             os.remove(args.file)
         sys.exit(0)
 
